@@ -9,6 +9,9 @@ CONSTANTS
   FullOrder = TRUE
   Points <- NoCatalog
   Feeds <- NoCatalog
+  PhaseMaps <- NoCatalog
+  ReKVals <- NoCatalog
+  MaxHist = 0
   Configs <- NoConfigs
   Comp <- TraceComp
 INVARIANT Verdict
